@@ -55,7 +55,17 @@ impl Scale {
 #[serde(tag = "kind", rename_all = "snake_case")]
 pub enum Case {
     /// `x S0 to S1 to ... Sn`, expected value in Sn and the unit Sn alone.
-    Chain { query: String, expect: String, unit: String, hops: usize },
+    Chain {
+        query: String,
+        expect: String,
+        unit: String,
+        hops: usize,
+        /// decimal prefix of the last scale as written (0 = none)
+        #[serde(default)]
+        prefix: i32,
+        #[serde(default)]
+        prefixed: bool,
+    },
     /// Offset scale not alone: result must be an error or exactly the interval value.
     NotAlone { query: String, interval: String, shift_examples: Vec<String> },
 }
@@ -68,10 +78,22 @@ fn spellings(s: Scale) -> Vec<&'static str> {
     }
 }
 
-fn scale() -> impl Strategy<Value = (Scale, &'static str)> {
-    (prop_oneof![Just(Scale::K), Just(Scale::C), Just(Scale::F)], any::<u16>()).prop_map(|(s, i)| {
+/// A scale spelling with its decimal prefix exponent: (scale, text, exponent).
+fn scale() -> impl Strategy<Value = (Scale, String, i32)> {
+    (prop_oneof![Just(Scale::K), Just(Scale::C), Just(Scale::F)], any::<u16>(), prop::bool::weighted(0.25)).prop_map(|(s, i, prefixed)| {
+        if prefixed {
+            // any prefixed word of the vocabulary for this scale that the tool reads as declared
+            let v = vocab();
+            let ui = v.by_variant[s.variant()];
+            let w = words();
+            let cands: Vec<&Word> = w.all.iter().filter(|x| x.safe && x.word.unit == ui && x.word.prefix != 0).map(|x| &x.word).collect();
+            if !cands.is_empty() {
+                let c = cands[pick_idx(i, cands.len())];
+                return (s, c.text.clone(), c.prefix);
+            }
+        }
         let sp = spellings(s);
-        (s, sp[pick_idx(i, sp.len())])
+        (s, sp[pick_idx(i, sp.len())].to_string(), 0)
     })
 }
 
@@ -87,12 +109,14 @@ fn lit() -> impl Strategy<Value = Lit> {
 fn chain() -> impl Strategy<Value = Case> {
     (lit(), prop::collection::vec(scale(), 2..=5)).prop_map(|(x, scales)| {
         let mut q = format!("{} {}", x.text, scales[0].1);
-        let k = scales[0].0.to_kelvin(&x.value);
+        // a prefixed degree is exactly its power of ten degrees
+        let k = scales[0].0.to_kelvin(&(&x.value * crate::tool::pow10(scales[0].2 as i64)));
         for s in &scales[1..] {
             q.push_str(&format!(" to {}", s.1));
         }
-        let last = scales.last().unwrap().0;
-        Case::Chain { query: q, expect: rat(&last.from_kelvin(&k)), unit: last.variant().to_string(), hops: scales.len() - 1 }
+        let last = scales.last().unwrap();
+        let out = last.0.from_kelvin(&k) / crate::tool::pow10(last.2 as i64);
+        Case::Chain { query: q, expect: rat(&out), unit: last.0.variant().to_string(), hops: scales.len() - 1, prefix: last.2, prefixed: scales.iter().any(|s| s.2 != 0) }
     })
 }
 
@@ -123,9 +147,11 @@ fn not_alone() -> impl Strategy<Value = Case> {
                 }
                 parts.join("*")
             };
-            let q = format!("{} {} to {}", x.text, spell(a.1), spell(b.1));
-            // interval conversion: only the degree size matters, the other units are identical on both sides
-            let f = rpow(&(a.0.degree() / b.0.degree()), p as i64).unwrap();
+            let q = format!("{} {} to {}", x.text, spell(&a.1), spell(&b.1));
+            // interval conversion: only the degree size (and its prefix) matters, the other units are identical on both sides
+            let da = a.0.degree() * crate::tool::pow10(a.2 as i64);
+            let db = b.0.degree() * crate::tool::pow10(b.2 as i64);
+            let f = rpow(&(da / db), p as i64).unwrap();
             let interval = &x.value * &f;
             // values that would result from adding a zero-point offset somewhere (for the report)
             let shifts = vec![rat(&(&interval + ratio(27315, 100))), rat(&(&interval - ratio(27315, 100))), rat(&(&interval + ratio(45967, 100)))];
@@ -136,14 +162,14 @@ fn not_alone() -> impl Strategy<Value = Case> {
 fn check(c: &Case) -> CaseReport {
     let db = shared_db();
     match c {
-        Case::Chain { query, expect, unit, hops } => {
+        Case::Chain { query, expect, unit, hops, prefix, prefixed } => {
             let rs = match run(db, query) {
                 Ok(r) => r,
                 Err(p) => return CaseReport::fail(query, "panic", json!({"query": query, "panic": p})),
             };
             let v = vocab();
             let mut want_unit = Mirror::new();
-            want_unit.insert(v.unit(unit).key(), (1, 0));
+            want_unit.insert(v.unit(unit).key(), (1, *prefix));
             match rs.as_slice() {
                 [R::Ok(val)] => {
                     if val.unit != want_unit {
@@ -158,6 +184,9 @@ fn check(c: &Case) -> CaseReport {
                     }
                     if *hops >= 3 {
                         classes.push("chain>=3");
+                    }
+                    if *prefixed {
+                        classes.push("prefixed-scale");
                     }
                     CaseReport::pass(query, *hops >= 2, classes)
                 }
@@ -186,7 +215,7 @@ fn check(c: &Case) -> CaseReport {
 
 pub fn run_check(ctx: &Ctx) {
     ctx.set_rule("chains `x S0 to S1 ... to Sn` (n <= 4) over K, °C/celsius, °F/fahrenheit with rational magnitudes (incl. absolute zero, -40, huge and tiny): the result must equal the direct conversion by K = C + 273.15, C = (F - 32)*5/9 exactly and carry the last scale alone; and the not-alone class (scale with power -3..3 other than 1, or multiplied/divided by one or two other units, cast to the same shape over another scale): the result must be an error or exactly the interval conversion; non-trivial = chain of >=2 hops or not-alone; distinct by query text");
-    ctx.assume("no SI prefixes on temperature scales (outside the quantifier)");
+    ctx.assume("a prefixed degree (m°C, kK, millicelsius) is exactly its power of ten degrees of that scale (C03's prefix rule)");
     let corpus: Vec<(String, Case)> = load_corpus("C09");
     let cases: Vec<Case> = corpus.into_iter().map(|c| c.1).collect();
     ctx.run_list("corpus", &cases, check, |c| to_json(c));
